@@ -346,8 +346,9 @@ Proof.
   - intros i ks Q par above C ND Hin An. inversion C as [|? ? d ? L Hc Hp F]; subst.
     cbn [leaves] in ND, Hin.
     destruct (Q (Some i) ((i, d, count_of d) :: above) F ND Hin) as [ancs [A1 A2]].
-    { apply ac_cons; [exact L | | exact An].
-      rewrite Hc. unfold I64_MIN. intro E. inversion E. lia. }
+    { apply ac_cons; [exact L | | | exact An].
+      - intros i0 g0 E. rewrite (count_of_some _ _ Hc) in E. discriminate E.
+      - rewrite Hc. unfold I64_MIN. intro E. inversion E. lia. }
     exists (ancs ++ [(i, d, count_of d)]). split.
     + rewrite <- app_assoc. exact A1.
     + rewrite map_app, A2. cbn [map anc_id fst chain]. apply mem_oid_In in Hin. rewrite Hin. reflexivity.
@@ -365,7 +366,7 @@ Qed.
 Lemma anc_chain_In m r l : anc_chain m r l ->
   forall id d c, In (id, d, c) l -> lookup m id = Some (ODict d) /\ c = count_of d.
 Proof.
-  induction 1 as [|id Hn|id d rest L Hc C IH]; intros id0 d0 c0 Hin; try destruct Hin.
+  induction 1 as [|id Hn|id d rest L Hd Hc C IH]; intros id0 d0 c0 Hin; try destruct Hin.
   - inversion H; subst. split; [exact L | reflexivity].
   - apply IH. exact H.
 Qed.
